@@ -197,7 +197,22 @@ func stressDVar(r *hx.Run, f []string) {
 				v := in[i]
 				jobs = append(jobs, func() {
 					for it := 0; it < iters; it++ {
-						v.Set(wr.Range(-2, 3))
+						switch wr.Intn(10) { // every write path of an input variable
+						case 0:
+							v.Compute(func(cur int) int {
+								if cur > 0 {
+									return cur - 1
+								}
+
+								return cur + 1
+							})
+						case 1:
+							v.DefaultTo(wr.Range(1, 3))
+						case 2:
+							v.ToggleValue(wr.Range(-2, 3))() // set, then reset to the zero value
+						default:
+							v.Set(wr.Range(-2, 3))
+						}
 					}
 				})
 			}
@@ -807,6 +822,8 @@ func runStress(r *hx.Run, f []string) {
 		stressStack(r, f)
 	case "stackforced":
 		stressStackForced(r, f)
+	case "basewrite":
+		stressBaseWrite(r, f)
 	case "stackvar":
 		stressStackVar(r, f)
 	case "stacksorted":
